@@ -121,9 +121,10 @@ CLAIMS = {
         "text": "Proved over any commutative ring, for every length: scalar, SSE-shaped and AVX-shaped kernels compute the same sum with every "
                 "index exactly once; bit-for-bit symmetry of all four f32 metrics on the soft-float instance; exact +0 self-distance for "
                 "Euclidean/Manhattan on finite vectors; cosine in [0,1]; rounding-error bounds for scalar and SIMD shapes in the standard "
-                "model. Every real kernel (dispatching, scalar, SSE, AVX+FMA) is compared BIT FOR BIT with the model's soft-float kernels "
+                "model, which the bit-level soft-float arithmetic is proved to satisfy in the normal range, so the bounds hold for the "
+                "actual kernels (C11_round_f32_dot_product, _euclidean_distance, _manhattan_distance). Every real kernel (dispatching, scalar, SSE, AVX+FMA) is compared BIT FOR BIT with the model's soft-float kernels "
                 "for lengths 1..300 x byte offsets 0..3 x value families, and with the exact sum within the bound.",
-        "note": COMMON_NOTE + " That the FPU satisfies the standard model is validated (bit-exact agreement with the soft-float), not proved.",
+        "note": COMMON_NOTE + " The soft-float operations are PROVED to satisfy the standard model in the normal range (C11_f32_std_model_on; mul/add/sub/fma/div/sqrt), and the actual dispatching kernels get the rounding bound under a decidable no-overflow/underflow run-time flag (C11_round_f32_dot_product …); that the host FPU equals the soft-float is validated bit-exactly, not proved. Underflow (absolute error) is not covered.",
         "technique": "Lean 4 theorems (Mathlib CommRing / reals for cover and rounding, core for bit-level symmetry) + bit-exact kernel differential",
     },
     "C13": {
